@@ -480,3 +480,87 @@ func depthOfNamed(c *Ctx, name string) (string, int64) {
 	}
 	return kind, k
 }
+
+// ruleCollectorState (N3): the fields of base.Globals that the declaration collector writes (derived from
+// CollectNode) are option-dependent state. They are read only by the file writer and the command line driver,
+// never by code of the fast interpreter that compiles or executes programs.
+func ruleCollectorState(c *Ctx) {
+	rule := "N3-collector-state"
+	bpk := c.P.Pkg("base")
+	cn := c.P.Func("base.Globals.CollectNode")
+	if bpk == nil || cn == nil {
+		c.Ob(rule, "base.Globals.CollectNode", nil, false, "anchor function not found")
+		return
+	}
+	binfo := bpk.TypesInfo
+	fields := map[*types.Var]bool{}
+	ast.Inspect(cn.Body, func(n ast.Node) bool {
+		as, ok := n.(*ast.AssignStmt)
+		if !ok {
+			return true
+		}
+		for _, l := range as.Lhs {
+			if s, ok := unparen(l).(*ast.SelectorExpr); ok {
+				if sel := binfo.Selections[s]; sel != nil && sel.Kind() == types.FieldVal {
+					if fv, ok := sel.Obj().(*types.Var); ok && fieldBelongsTo(fv, "base", "Globals") {
+						fields[fv] = true
+					}
+				}
+			}
+		}
+		return true
+	})
+	if len(fields) < 4 {
+		c.Ob(rule, "base.Globals.CollectNode/fields", cn, false, fmt.Sprintf("%d collector-written fields found, at least 4 expected", len(fields)))
+		return
+	}
+	n := 0
+	for _, pk := range c.P.All {
+		if !strings.HasPrefix(pk.PkgPath, modPath) || strings.HasSuffix(pk.PkgPath, "/classic") {
+			// the classic interpreter keeps its own current package name in the same field (classic/file.go)
+			continue
+		}
+		info := pk.TypesInfo
+		for _, f := range pk.Syntax {
+			for _, d := range f.Decls {
+				fd, ok := d.(*ast.FuncDecl)
+				if !ok || fd.Body == nil {
+					continue
+				}
+				k := funcKey(pk, fd)
+				lhs := map[ast.Node]bool{}
+				ast.Inspect(fd.Body, func(nd ast.Node) bool {
+					if as, ok := nd.(*ast.AssignStmt); ok && (as.Tok == token.ASSIGN || as.Tok == token.DEFINE) {
+						for _, l := range as.Lhs {
+							lhs[unparen(l)] = true
+						}
+					}
+					return true
+				})
+				seen := map[string]bool{}
+				ast.Inspect(fd.Body, func(nd ast.Node) bool {
+					s, ok := nd.(*ast.SelectorExpr)
+					if !ok || lhs[s] {
+						return true
+					}
+					sel := info.Selections[s]
+					if sel == nil || sel.Kind() != types.FieldVal {
+						return true
+					}
+					fv, _ := sel.Obj().(*types.Var)
+					if fv == nil || !fields[fv] || seen[fv.Name()] {
+						return true
+					}
+					seen[fv.Name()] = true
+					n++
+					okR := strings.HasPrefix(k, "cmd.") || k == "base.Globals.CollectNode" || k == "base.Globals.WriteDeclsToStream" || k == "base.Globals.WriteDeclsToFile"
+					c.Ob(rule, fv.Name()+" in "+k, s, okR, "Globals."+fv.Name()+" is written by the declaration collector (under OptCollectDeclarations / OptCollectStatements): only the file writer and the command line driver read it")
+					return true
+				})
+			}
+		}
+	}
+	if n < 4 {
+		c.Ob(rule, "readers", nil, false, "fewer than 4 readers found: anchor missing")
+	}
+}
